@@ -14,7 +14,7 @@ def write_docs(d, files):
     os.makedirs(d, exist_ok=True)
     for name, text in files: open(os.path.join(d, name), "w", encoding="utf-8").write(text)
 
-def parse_dir(d, names, k=None, observe=None):
+def parse_dir(d, names, k=None, observe=None, namespaces=None):
     """parse with a failure injected at the k-th operation; returns (outcome, trace, fired).
     observe: called at the moment the call has returned or raised - inside the handler, while the exception (and with it the frames of the failed
     call) is still alive, which is when a caller's own except clause looks at the directory"""
@@ -22,7 +22,7 @@ def parse_dir(d, names, k=None, observe=None):
     tr = inject.Tracer(k)
     with inject.intercepted(tr):
         try:
-            res = parse_xml_files([os.path.join(d, n) for n in names])
+            res = parse_xml_files([os.path.join(d, n) for n in names]) if namespaces is None else parse_xml_files([os.path.join(d, n) for n in names], list(namespaces))
             if observe: observe()
             out = ["ok", result_header(res)]
         except BaseException as e:
@@ -87,6 +87,23 @@ def run_case(ctx, work, s, k, edit_target=0):
     ref, _, _ = parse_dir(d2, names, None)
     return dict(out=out, trace=trace, fired=fired, before=before, after=after, leftovers=leftovers, out2=out2, ref=ref, after2=sorted(os.listdir(d)), names=names)
 
+def run_filtered_case(ctx, work):
+    """a parse of two files WITH a namespace list fails in the first file; both files are then replaced (the first repaired, the second now another
+    namespace) and the same paths are parsed again with the matching list: the result must be that of a parse of the same bytes in a fresh place"""
+    from docs import UA
+    d = os.path.join(work, "fcase"); shutil.rmtree(d, ignore_errors=True)
+    bad = docs.render(docs.simple_doc(ctx.rng, "urn:fa", bad="nodeid"), ctx.rng); good_b = docs.render(docs.simple_doc(ctx.rng, "urn:fb", n_nodes=2), ctx.rng)
+    write_docs(d, [("a.xml", bad), ("b.xml", good_b)]); names = ["a.xml", "b.xml"]
+    before = snapshot(d); seen = []
+    out, _, _ = parse_dir(d, names, None, observe=lambda: seen.append(snapshot(d)), namespaces=[UA, "urn:fa", "urn:fb"])
+    after = seen[0] if seen and seen[0] != before else snapshot(d)
+    new_a = docs.render(docs.simple_doc(ctx.rng, "urn:fa", n_nodes=2), ctx.rng); new_b = docs.render(docs.simple_doc(ctx.rng, "urn:fb2", n_nodes=3), ctx.rng)
+    write_docs(d, [("a.xml", new_a), ("b.xml", new_b)])
+    out2, _, _ = parse_dir(d, names, None, namespaces=[UA, "urn:fa", "urn:fb2"])
+    d2 = os.path.join(work, "fref"); shutil.rmtree(d2, ignore_errors=True); write_docs(d2, [("a.xml", new_a), ("b.xml", new_b)])
+    ref, _, _ = parse_dir(d2, names, None, namespaces=[UA, "urn:fa", "urn:fb2"])
+    return dict(out=out, trace=[], fired=None, before=before, after=after, leftovers=[], out2=out2, ref=ref, after2=sorted(os.listdir(d)), names=names)
+
 def judge_case(r):
     fails = []
     if r["after"] != r["before"]:
@@ -113,6 +130,10 @@ def check(ctx):
     work = os.path.join(vlib.WORK, "c19_%d" % os.getpid()); os.makedirs(work, exist_ok=True)
     reqs = []; meta = []
     try:
+        rf = run_filtered_case(ctx, work)
+        ctx.record(dict(set="filtered", files=["a.xml", "b.xml"], bad="nodeid", fault=None), True, ["filtered-parse", "bad=nodeid"])
+        if rf["out"][0] != "err": ctx.disagree("trace", dict(set="filtered"), rf["out"][:1], ["err"])
+        for sig, detail in judge_case(rf): ctx.fail(sig, dict(kind="filtered"), detail)
         for si, s in enumerate(make_sets(ctx)):
             # failure-free trace first
             r0 = run_case(ctx, work, s, None)
